@@ -84,6 +84,7 @@ def check(run: Run) -> None:
     run.rule("L5", "the printer never rounds or re-formats numbers (no precision format spec, round(), float()) - the printed number is the number")
     run.rule("L7", "the name helpers attach a subscript to a LaTeX name as a braced group `_{...}` (an unbraced multi-character subscript is read by TeX as one token followed by a product)")
     run.rule("L8", "whether two neighbouring factors need the number separator (2 \\cdot 10^{n}) is decided on their rendered text, not on the class of the factors")
+    run.rule("L9", "the minus-sign extraction never takes a sign out of the base of a power unless the exponent is tested to be odd ((-b)**(-1/2), (-b)**(-2) keep their base)")
     run.rule("L6", "no f-string of the printer emits a literal `{name}` where `name` is a variable in scope (an unsubstituted placeholder)")
     pm = run.src.need(PRINTER)
     classes = [c for c in pm.tree.body if isinstance(c, ast.ClassDef) and any(dotted(b) == "LatexPrinter" for b in c.bases)]
@@ -195,6 +196,21 @@ def check(run: Run) -> None:
             run.violate("L6", f"{PRINTER}:{meth.name}:literal-{{{name}}}", pm, node,
                         f"f-string `{norm(node, 70)}` in {meth.name} emits the literal text `{{{name}}}` although `{name}` is a variable in scope: its value is not printed")
     _l7_l8(run, pm, classes)
+    from ..flow import conditions_for as _cf, stmt_of as _so
+    n9 = 0
+    for fn9 in [x for x in ast.walk(pm.tree) if isinstance(x, ast.FunctionDef) and "minus_sign" in x.name]:
+        n9 += 1
+        run.ob("L9", fn9.name)
+        for a9 in [x for x in ast.walk(fn9) if isinstance(x, ast.Attribute) and x.attr == "base"]:
+            st9 = _so(fn9, a9)
+            conds9 = [t for t, pol in (_cf(fn9, st9) or []) if not isinstance(t, str) and pol]
+            odd = any(isinstance(y, ast.Attribute) and y.attr in ("is_odd", ) for t in conds9 for y in ast.walk(t)) or \
+                any(isinstance(y, ast.BinOp) and isinstance(y.op, ast.Mod) for t in conds9 for y in ast.walk(t))
+            if not odd:
+                run.violate("L9", f"{PRINTER}:{fn9.name}:power-base", pm, a9,
+                            f"{fn9.name} looks for a minus sign inside the base of a power (`{norm(st9, 60)}`) without testing that the exponent is an odd integer: "
+                            f"a/sqrt(-b) would be printed as -a/sqrt(b), a*(-3)**(-2) as -a/9")
+    run.floor("L9", n9, 2, "minus-sign helpers of the LaTeX printer")
     # ---- L5
     for meth in [s_ for s_ in classes[0].body if isinstance(s_, ast.FunctionDef)]:
         run.ob("L5", meth.name)
